@@ -63,6 +63,14 @@ type tooLong struct{}
 var ckSteps int
 var ckLong bool
 
+// ck_str bounds the length of strings (far below the VM's 1 MiB item limit and the batch's memory).
+func ck_str(n int) {
+	if n > 1<<14 {
+		ckLong = true
+		panic(tooLong{})
+	}
+}
+
 func ck_step() {
 	ckSteps++
 	if ckSteps > 4000 {
